@@ -12,6 +12,7 @@
    m := spec_run ops is the prefix map after the same history. *)
 From Coq Require Import List Bool ZArith Permutation NArith.
 Import ListNotations.
+From BioVerif Require Import Model.NetArith Spec.NetSpec Gen.NetGen Model.TrieNet Proofs.TrieNetInstance.
 From BioVerif Require Import Lib.BitPfx Model.Trie Model.TrieRaw Spec.TrieSpec Proofs.TrieProofs
   Proofs.TrieRawFacts.
 
@@ -73,6 +74,66 @@ Section C01.
      (conj (proj2 (refines_dump P peq peq_refl ops))
            (refines_count P peq peq_refl ops)))))).
   Qed.
+
+  (* ---- the same statement for the trie whose prefix operations are the MACHINE-WORD functions of
+     package net (Model/NetArith.v = the transcription of net/prefix.go, net/ip.go that C15 proves
+     correct; Model/TrieNet.v = the trie instantiated with them): for every history over canonical
+     prefixes (canon fam p := wf_pfx p /\ legacy (addr p) = fam /\ Valid p = true: 64-bit words, the
+     family's flag, len <= 32 resp. 128, no host bit set) and every canonical query.  bits_of p = the
+     first len bits of the address; bits_route / bits_op apply it to a route / an operation.
+     Proof: Proofs/TrieSim.v (generic simulation) + Proofs/TrieNetInstance.v (interface obligations
+     from the C15 theorems) + the bit-string theorems above. *)
+  Theorem C01_refines_ipv4 : forall (ops : list (nop P)) (q : pfx),
+    Forall (canon_op P true) ops -> canon true q ->
+    let t := n_run P peq ops in
+    let m := spec_run P peq (map (bits_op P) ops) in
+    option_map (bits_route P) (nt_get P t q) = spec_get P m (bits_of q) /\
+    Permutation (map (bits_route P) (nt_lpm P t q)) (spec_lpm P m (bits_of q)) /\
+    Permutation (map (bits_route P) (nt_getLonger P t q)) (spec_longer P m (bits_of q)) /\
+    Permutation (map (bits_route P) (nt_dump P t)) m /\
+    NoDup (map fst (nt_dump P t)) /\
+    nt_count P t = Z.of_nat (length m).
+  Proof. exact (net_refines P peq peq_refl true). Qed.
+
+  Theorem C01_refines_ipv6 : forall (ops : list (nop P)) (q : pfx),
+    Forall (canon_op P false) ops -> canon false q ->
+    let t := n_run P peq ops in
+    let m := spec_run P peq (map (bits_op P) ops) in
+    option_map (bits_route P) (nt_get P t q) = spec_get P m (bits_of q) /\
+    Permutation (map (bits_route P) (nt_lpm P t q)) (spec_lpm P m (bits_of q)) /\
+    Permutation (map (bits_route P) (nt_getLonger P t q)) (spec_longer P m (bits_of q)) /\
+    Permutation (map (bits_route P) (nt_dump P t)) m /\
+    NoDup (map fst (nt_dump P t)) /\
+    nt_count P t = Z.of_nat (length m).
+  Proof. exact (net_refines P peq peq_refl false). Qed.
+
+  (* ... and for the trie whose prefix operations are the definitions REGENERATED from the Go source
+     on this run (Gen/NetGen.v by tools/gosub2coq; Proofs/TrieNetGen.v shows Equal, Contains,
+     GetSupernet, BitAtPosition equal to the transcription and stops compiling when one of them
+     changes its meaning) *)
+  Theorem C01_refines_ipv4_gen : forall (ops : list (nop P)) (q : pfx),
+    Forall (canon_op P true) ops -> canon true q ->
+    let t := g_run P peq ops in
+    let m := spec_run P peq (map (bits_op P) ops) in
+    option_map (bits_route P) (gt_get P t q) = spec_get P m (bits_of q) /\
+    Permutation (map (bits_route P) (gt_lpm P t q)) (spec_lpm P m (bits_of q)) /\
+    Permutation (map (bits_route P) (gt_getLonger P t q)) (spec_longer P m (bits_of q)) /\
+    Permutation (map (bits_route P) (nt_dump P t)) m /\
+    NoDup (map fst (nt_dump P t)) /\
+    nt_count P t = Z.of_nat (length m).
+  Proof. exact (gen_refines P peq peq_refl true). Qed.
+
+  Theorem C01_refines_ipv6_gen : forall (ops : list (nop P)) (q : pfx),
+    Forall (canon_op P false) ops -> canon false q ->
+    let t := g_run P peq ops in
+    let m := spec_run P peq (map (bits_op P) ops) in
+    option_map (bits_route P) (gt_get P t q) = spec_get P m (bits_of q) /\
+    Permutation (map (bits_route P) (gt_lpm P t q)) (spec_lpm P m (bits_of q)) /\
+    Permutation (map (bits_route P) (gt_getLonger P t q)) (spec_longer P m (bits_of q)) /\
+    Permutation (map (bits_route P) (nt_dump P t)) m /\
+    NoDup (map fst (nt_dump P t)) /\
+    nt_count P t = Z.of_nat (length m).
+  Proof. exact (gen_refines P peq peq_refl false). Qed.
 End C01.
 
 Print Assumptions C01_get.
@@ -82,6 +143,10 @@ Print Assumptions C01_dump.
 Print Assumptions C01_count.
 Print Assumptions C01_spec_is_a_map.
 Print Assumptions C01_refines.
+Print Assumptions C01_refines_ipv4.
+Print Assumptions C01_refines_ipv6.
+Print Assumptions C01_refines_ipv4_gen.
+Print Assumptions C01_refines_ipv6_gen.
 
 (* Why "canonical prefixes" is an assumption and not a convenience: the same trie code fed with
    Go prefixes whose host bits are set (Model/TrieRaw.v, IPv4; tied to the code by the "rn" stream
@@ -93,6 +158,19 @@ Theorem C01_noncanonical_refuted :
     rt_get N t p1 = None /\ rt_dump N t = [(p2, [2%N])] /\ rt_count N t = 2%Z.
 Proof. exact (ex_intro _ ten_slash8 (ex_intro _ ten_one_slash8 noncanonical_breaks_trie)). Qed.
 Print Assumptions C01_noncanonical_refuted.
+
+(* ... the same on the machine-word model of package net (10.0.0.0/8 = 0x0a000000, 10.0.0.1/8) *)
+Theorem C01_noncanonical_refuted_words :
+  exists p1 p2 : pfx, p1 <> p2 /\ wf_pfx p1 /\ wf_pfx p2 /\ Valid p1 = true /\ Valid p2 = false /\
+    let t := n_run N N.eqb [Add _ _ p1 1%N; Add _ _ p2 2%N] in
+    nt_get N t p1 = None /\ nt_dump N t = [(p2, [2%N])] /\ nt_count N t = 2%Z.
+Proof. exact noncanonical_breaks_word_trie. Qed.
+Print Assumptions C01_noncanonical_refuted_words.
+
+(* the hypotheses of C01_refines_ipv4/6 are satisfiable on a non-trivial history: 10.0.0.0/9 and
+   10.128.0.0/9 (dummy supernet 10.0.0.0/8), GetLonger of the absent 10.0.0.0/8; 2001:db8::/32 and ::/0 *)
+Example C01_example_words : net_example_statement.
+Proof. exact net_example. Qed.
 
 (* Non-vacuity, on the instance the correspondence check runs (paths = N):
    10/2 stored, 1011/4 and 1000/4 stored below it (the trie creates a dummy 10/2.. supernet),
@@ -111,5 +189,5 @@ Example C01_example_history :
   bt_getLonger N t [true;false;false] = [([true;false;false;false], [2%N])] /\
   bt_getLonger N t [true] =
     [([true;false], [7%N]); ([true;false;false;false], [2%N]); ([true;false;true;true], [5%N])] /\
-  bt_count N t = 3%Z /\ length (spec_run N N.eqb ops) = 3.
+  bt_count N t = 3%Z /\ length (spec_run N N.eqb ops) = 3%nat.
 Proof. vm_compute. repeat split. Qed.
